@@ -417,11 +417,7 @@ def step (w : World) : Op → World × Out
     if r == rsrc then (w, .badOp) else
     (match w.get r, w.get rsrc with
      | some (.vec v), some (.vec src) =>
-       -- default `Clone::clone_from`: `*self = source.clone()` — clone first, then the old value is dropped
-       let (res, s) := (do
-          let (c, _) ← VM.onVec src (clone X)
-          -- an assignment stores the new value also when dropping the old one unwinds
-          VM.guarded (dropVec X) (VM.setV c)) { sys := w.sys, v := v }
+       let (res, s) := clone_from X src { sys := w.sys, v := v }
        let w' := { w with sys := s.sys }
        (match res with
         | .ok _ => (w'.set r (.vec s.v), .ok)
